@@ -29,6 +29,19 @@ def load(prop_id):
     return importlib.import_module(f"sim.props.{prop_id.lower()}")
 
 
+def gen_scn(mod, seed, idx, tier):
+    """The scenario of run ``idx``: the property's own generator, then the shared object life cycles
+    (their own sub-stream of the same seed)."""
+    from . import scen
+    from .common import substream
+
+    scn = mod.gen(seed, idx, tier)
+    lc = getattr(mod, "LIFECYCLES", None)
+    if lc is not None:
+        scn = scen.add_lifecycles(substream(seed, idx, "lifecycles"), scn, **lc)
+    return scn
+
+
 # ------------------------------------------------------------------------------ workers
 def _worker_init():
     os.environ.setdefault("NUMBA_NUM_THREADS", "16")
@@ -59,7 +72,7 @@ def work_chunk(prop_id, seed, tier, indices, want_scn):
     out = []
     for idx in indices:
         _SEQ[0] += 1
-        scn = mod.gen(seed, idx, tier)
+        scn = gen_scn(mod, seed, idx, tier)
         t0 = time.perf_counter()
         r = _run_one(mod, scn)
         r["idx"] = idx
@@ -263,7 +276,7 @@ def run_batch(prop_id, tier, seed, runs=None, workers=None, max_wall=None, selft
         for r, v in new_violations:
             by_rule.setdefault(v["rule"], (r, v))
         for rule, (r, v) in list(by_rule.items())[:5]:
-            scn = r.get("scenario") or mod.gen(seed, r["idx"], tier)
+            scn = r.get("scenario") or gen_scn(mod, seed, r["idx"], tier)
             try:
                 small, execs = minimise(pool, prop_id, mod, scn, rule, findings)
             except Exception as e:
@@ -300,7 +313,7 @@ def run_batch(prop_id, tier, seed, runs=None, workers=None, max_wall=None, selft
                 # the violation may depend on what the same worker process executed before (hidden
                 # process-global state in the library): replay the worker's history up to this run
                 hist = sorted([x for x in results if x.get("pid") == r["pid"] and x.get("seq", 0) < r["seq"]], key=lambda x: x["seq"])
-                rep["history"] = [mod.gen(seed, x["idx"], tier) for x in hist[-60:]] + [scn]
+                rep["history"] = [gen_scn(mod, seed, x["idx"], tier) for x in hist[-60:]] + [scn]
                 rep["history_indices"] = [x["idx"] for x in hist[-60:]] + [r["idx"]]
                 rep["scenario"] = scn
                 with open(path, "w") as fh:
@@ -448,7 +461,7 @@ def fingerprints(prop_id, seed, tier, indices):
     _worker_init()
     out = {}
     for i in indices:
-        r = _run_one(mod, mod.gen(seed, i, tier))
+        r = _run_one(mod, gen_scn(mod, seed, i, tier))
         out[i] = r["fingerprint"]
     print("FINGERPRINTS " + json.dumps(out))
     return 0
